@@ -157,3 +157,39 @@ impl Network {
         .await;
     }
 }
+
+#[cfg(feature = "verif")]
+pub(crate) use handshake::Handshake as VerifHandshake;
+#[cfg(feature = "verif")]
+pub(crate) use fetch::{Queue as VerifFetchQueue, RequestItem as VerifRequestItem};
+#[cfg(feature = "verif")]
+pub(crate) use validator_addrs::ValidatorAddrsWatch as VerifValidatorAddrsWatch;
+
+/// Wrapper of the inbound handshake for the `verif` facade.
+#[cfg(feature = "verif")]
+pub(crate) async fn verif_handshake_inbound(
+    ctx: &ctx::Ctx,
+    cfg: &Config,
+    genesis: validator::GenesisHash,
+    stream: &mut crate::noise::Stream,
+) -> Result<node::PublicKey, String> {
+    handshake::inbound(ctx, cfg, genesis, stream)
+        .await
+        .map(|c| c.key.clone())
+        .map_err(|e| format!("{e:#}"))
+}
+
+/// Wrapper of the outbound handshake for the `verif` facade.
+#[cfg(feature = "verif")]
+pub(crate) async fn verif_handshake_outbound(
+    ctx: &ctx::Ctx,
+    cfg: &Config,
+    genesis: validator::GenesisHash,
+    stream: &mut crate::noise::Stream,
+    peer: &node::PublicKey,
+) -> Result<node::PublicKey, String> {
+    handshake::outbound(ctx, cfg, genesis, stream, peer)
+        .await
+        .map(|c| c.key)
+        .map_err(|e| format!("{e:#}"))
+}
